@@ -129,6 +129,9 @@ type Session struct {
 	messagesOnce sync.Once
 	// messages is the channel on which the session receives BFD packets.
 	messages chan bfdMessage
+	// done is closed by Close. The messages channel itself is never closed, because
+	// ReceiveMessage may still be called by packet processors while the session is closed.
+	done chan struct{}
 
 	// localStateLock protects access to the local state.
 	localStateLock sync.RWMutex
@@ -230,6 +233,8 @@ func (s *Session) Run(ctx context.Context) error {
 MainLoop:
 	for {
 		select {
+		case <-s.done:
+			break MainLoop
 		case msg, ok := <-s.messages:
 			if !ok {
 				break MainLoop
@@ -329,7 +334,7 @@ MainLoop:
 
 func (s *Session) Close() error {
 	s.initMessages()
-	close(s.messages)
+	close(s.done)
 	return nil
 }
 
@@ -432,13 +437,17 @@ func (s *Session) ReceiveMessage(msg *layers.BFD) {
 	}
 
 	// The packet will be returning to the pool. We do not keep a reference to any part of it.
-	s.messages <- bfdMessage{
+	m := bfdMessage{
 		State:                 msg.State,
 		DetectMultiplier:      msg.DetectMultiplier,
 		MyDiscriminator:       msg.MyDiscriminator,
 		YourDiscriminator:     msg.YourDiscriminator,
 		DesiredMinTxInterval:  msg.DesiredMinTxInterval,
 		RequiredMinRxInterval: msg.RequiredMinRxInterval,
+	}
+	select {
+	case s.messages <- m:
+	case <-s.done: // session closed: drop
 	}
 }
 
@@ -461,6 +470,7 @@ func (s *Session) initMetrics() {
 func (s *Session) initMessages() {
 	s.messagesOnce.Do(func() {
 		s.messages = make(chan bfdMessage, s.ReceiveQueueSize)
+		s.done = make(chan struct{})
 	})
 }
 
